@@ -15,6 +15,10 @@ C12 line-protocol driver.
       resp  = g:<tree|->:<etag path hex> | w | d:<tree> (/adapt) | r | amb | F<status>:<class>
       ids   = for every distinct "@id" text in the config, sorted: <hex>=<resp of GET /id/<text>, etag path only>
   cas <k> <n>                 k concurrent clients × n conditional increments → `cas <k*n>`
+  gg <tree> <pathA> <pathB> [<pathC> [<pathD>]]
+                              overlapping GETs after loading <tree>: GET A is served with a ResponseWriter whose
+                              first Write performs complete GETs of B, C, D through the same handler before it
+                              looks at its argument; answer: the GET answers of A|B|C|D
   idrace <n> | peek <k> <n>   concurrency samples on the real handler for Regions.lean: the two critical
                               sections of /id/ requests; a rejected write is invisible to concurrent readers
   clean <p> | join <a> <b> | fields <s> | atoi <s> | itoa <n> | route <p>
@@ -355,6 +359,15 @@ def handle : List String → String
         | .config => "config" | .id => "id" | .load => "load" | .adapt => "adapt"
         | .redirect => "redirect" | .none => "none")
     | none => "bad-op"
+  | "gg" :: doc :: paths =>
+    -- overlapping GETs: the first is being written out while the others are served completely; each GET
+    -- answers the value at its own path, whatever overlaps (`get_answer_is_independent_of_other_reads`)
+    match parseWholeTree doc, paths.mapM Hex.decode with
+    | some j, some ps =>
+      if ps.length < 2 || ps.length > 4 || !ps.all pathOK then "bad-op" else
+      let s := (serve drvEnv ⟨.post, cfgPrefix, .val j, [], false, .json⟩ initState).1
+      "|".intercalate (ps.map fun p => showResp true (serve drvEnv (getReq p) s).2)
+    | _, _ => "bad-op"
   | ["idrace", n] =>
     -- samples the two lock regions of /id/ requests on the real handler (Regions.lean); the race is
     -- not a function of the input, the answer is constant
